@@ -3,7 +3,7 @@
    reads and prints trees of integers and the same function can be evaluated inside Coq
    (vm_compute) to cross-check extraction. *)
 From AS Require Import Base Effects.
-From AS.Spec Require Import Terminal.
+From AS.Spec Require Import Terminal PyStr.
 From AS.Model Require Import Sgr Tokenizer Table Ops Render Scrub Parse StrOps FormatSpec Exec.
 Local Open Scope Z_scope.
 
@@ -94,6 +94,23 @@ Definition run_request (req : sx) : sx :=
                            A (match sf_align f with ALeft => 0 | ARight => 1 | ACenter => 2 end);
                            sx_of_str (sf_width f)]
             | SFerr => L [] end ]
+      | _ => A (-1) end
+    else if c =? 11 then                             (* Spec/PyStr.v functions, validated against CPython's str *)
+      match args with
+      | [A which; a; b; A m] =>
+        let x := str_of_sx a in let y := str_of_sx b in
+        let trip (t : str * str * str) := L [sx_of_str (fst (fst t)); sx_of_str (snd (fst t)); sx_of_str (snd t)] in
+        let offs (l : list (nat * nat)) := L (map (fun ol => L [sx_of_nat (fst ol); sx_of_nat (snd ol)]) l) in
+        if which =? 0 then sx_of_str (py_lstrip x y)
+        else if which =? 1 then sx_of_str (py_rstrip x y)
+        else if which =? 2 then sx_of_str (py_strip x y)
+        else if which =? 3 then sx_of_str (py_removeprefix x y)
+        else if which =? 4 then sx_of_str (py_removesuffix x y)
+        else if which =? 5 then trip (py_partition x y)
+        else if which =? 6 then trip (py_rpartition x y)
+        else if which =? 7 then L [sx_of_strs (py_split_texts x m y); offs (py_split_offsets x m y)]
+        else if which =? 8 then L [sx_of_strs (py_rsplit_texts x m y); offs (py_rsplit_offsets x m y)]
+        else A (-1)
       | _ => A (-1) end
     else A (-1)
   | _ => A (-1)
